@@ -561,7 +561,13 @@ class MultiVector:
                 sqrt=lambda s: (-s)**0.5,
             )
         """
-        ll = (self * self).filter()
+        ll = self * self
+        if all(isinstance(v, (int, float, complex)) for v in self.values()):
+            # In floating point the non-scalar part of the square of a simple element only vanishes up to rounding.
+            scale = max((abs(v) for v in self.values()), default=0) ** 2
+            ll = ll.filter(lambda v: abs(v) > 1e-12 * scale)
+        else:
+            ll = ll.filter()
         if ll.grades and ll.grades != (0,):
             raise NotImplementedError(
                 'Currently only elements that square to a scalar (i.e. are simple) can be exponentiated.'
